@@ -5,6 +5,8 @@ interpreter performs them) produces, for every skeleton program, exactly the tra
 specification and leaves both stacks balanced; in the specification every object is destroyed exactly once.
 Tie: skeleton programs -> Cb programs whose constructors, destructors, defers and ordinary statements print
 tags; the interpreter's stdout must equal the model's trace.  Exhaustive small skeletons + random deeper ones.
+Compound objects (value members with destructors): lean/CbProps/C06Compound.lean — the expected trace `expand` equals the
+visible trace of the skeleton with every compound object written as members-first-then-object.
 """
 import itertools, json, os
 import common
@@ -12,7 +14,8 @@ from common import Rng, esc
 
 PID = "C06"
 THEOREMS = {"CbProps.C06": ["CbProps.C06." + t for t in [
-    "exec_refines", "run_refines_spec", "spec_destroyed_once", "callee_leaves_caller_frames"]]}
+    "exec_refines", "run_refines_spec", "spec_destroyed_once", "callee_leaves_caller_frames"]],
+    "CbProps.C06Compound": ["CbProps.C06Compound." + t for t in ["compound_is_members_then_object", "members_destroyed_once"]]}
 
 HDR = """struct R { int id; };
 impl R {
@@ -252,7 +255,7 @@ def random_programs(seed, n):
 def main(a):
     v = common.Verdict(PID, a.tier, a.seed)
     has_proofs = os.path.exists(os.path.join(common.LEAN, "CbProps", "C06.lean"))
-    driver_ok, failed = common.lean_obligations(v, ["CbProofs"] + (["CbProps.C06"] if has_proofs else []),
+    driver_ok, failed = common.lean_obligations(v, ["CbProofs"] + (["CbProps.C06", "CbProps.C06Compound"] if has_proofs else []),
                                                 THEOREMS if has_proofs else {})
     exe, blog = common.build_impl()
     if exe is None or not driver_ok:
@@ -279,12 +282,17 @@ def main(a):
     strict = 0
     for k, (f, m, o) in enumerate(zip(progs, mo, outs)):
         fld = m.split("\t")
-        if len(fld) != 6 or fld[0] == "oof":
+        if len(fld) != 8 or fld[0] == "oof":
             continue
         mech, spec = fld[1].split(), fld[3].split()
         if mech != spec or fld[4] != "0" or fld[5] != "0":
             strict += 1      # the model itself deviates from its specification (a proof obligation would fail)
-        spec = expand(spec, modes[k])
+        if modes[k] == 1:
+            # the expected trace of the compound rendering is computed by the Lean model (CbModel.Cleanup.expand, the function
+            # of theorem compound_is_members_then_object); the Python copy only cross-checks the driver
+            if fld[7] != "1" or expand(spec, 1) != fld[6].split():
+                strict += 1
+            spec = fld[6].split()
         got = o[0].split()
         if any(e[0] in "df" for e in spec):
             nontrivial.add((modes[k], fld[3]))
